@@ -694,6 +694,70 @@ CfgCases(u) ==
                         I(CALL, d, 0, 7, 6), ExitI >>)] : d \in {3, 7, 9} }
 
 (***************************************************************************)
+(* Family "flow" (C01, C03, C04, C08): shapes that defeat an engine which   *)
+(* remembers something about the machine state at translation time -       *)
+(* a value, a scratch register's content, a checked address - across a     *)
+(* point where the state can change.                                       *)
+(*   dead     a helper call that is never reached names an unregistered id *)
+(*            (the interpreter must not mind; the compilers refuse)        *)
+(*   join     two identical by-register operations in a row, the second    *)
+(*            also reached by a jump taken from elsewhere (whatever the    *)
+(*            first left in a scratch register is not there on that path)  *)
+(*   alias    the same bytes written through r10 and through a copy of it  *)
+(*            (and the packet through two registers), then read again      *)
+(*   uaw      r0 is set to a constant, then written by something that is   *)
+(*            not an ALU instruction (helper, packet load, load, wide      *)
+(*            load, local call), then used as the source of every          *)
+(*            register-form ALU instruction                                *)
+(***************************************************************************)
+FlowDead(k) ==
+  [BaseCase EXCEPT !.id = <<"dead", k, 0, 0, 0, 0, 0>>, !.fam = "flow", !.vm = "nodata", !.helpers = {1},
+     !.prog = Flat(IF k = 1 THEN << Mov64I(0, 7), JeqI(0, 7, 1), CallI(99), ExitI >>                    \* branch not taken here
+                   ELSE << Mov64I(0, 3), ExitI, CallI(99), ExitI >>)]                                     \* dead code
+
+JoinOps == << 111, 127, 207, 108, 124, 204, 47, 63, 159, 44, 60, 156 >>   \* lsh rsh arsh (64, 32) ; mul div mod (64, 32), register forms
+FlowJoin(oi, taken) ==
+  LET o == JoinOps[oi] IN
+  [BaseCase EXCEPT !.id = <<"join", o, taken, 0, 0, 0, 0>>, !.fam = "flow", !.vm = "nodata",
+     !.prog = Flat(<< Mov64I(2, 77777), Mov64I(1, 3), Mov64I(5, 5), Mov64I(6, 1600),
+                      I(o, 6, 5, 0, 0),                     \* the same kind of operation with another operand register
+                      JeqI(1, IF taken = 1 THEN 3 ELSE 4, 1),   \* taken: skip the first of the pair
+                      I(o, 2, 1, 0, 0),
+                      I(o, 2, 1, 0, 0),                     \* <- jump target
+                      Mov64R(0, 2), Add64R(0, 6), ExitI >>)]
+
+FlowAlias(k, w) ==
+  IF k = 1
+  THEN [BaseCase EXCEPT !.id = <<"alias", k, w, 0, 0, 0, 0>>, !.fam = "flow", !.vm = "nodata",
+          !.prog = Flat(<< StI(8, 10, -8, 1), LdxI(w, 4, 10, -8),          \* [r10-8] written and read through r10
+                           Mov64R(2, 10), Add64I(2, -8), Mov64I(3, 2), StxI(w, 2, 3, 0),     \* ... written through a copy
+                           LdxI(w, 0, 10, -8), Add64R(0, 4), ExitI >>)]
+  ELSE [WithPkt([BaseCase EXCEPT !.vm = "raw"], 16) EXCEPT !.id = <<"alias", k, w, 0, 0, 0, 0>>, !.fam = "flow",
+          !.prog = Flat(<< LdxI(w, 4, 1, 8), Mov64R(2, 1), Add64I(2, 4), Mov64I(3, 2), StxI(w, 2, 3, 4),   \* [r1+8] = [r2+4]
+                           LdxI(w, 0, 1, 8), Add64R(0, 4), ExitI >>)]
+
+UawWriters == 1..6     \* 1 helper  2 ldabsb  3 ldindb  4 ldxb  5 lddw  6 local call
+UawOps == {o \in AluOpcodes : SrcBit(o) = 1}
+FlowUaw(wk, o) ==
+  LET pre == << Mov64I(6, 100), Mov64I(0, 5) >>
+      use == << I(o, 6, 0, 0, 0), Mov64R(0, 6), ExitI >>
+      w   == CASE wk = 1 -> << Mov64I(1, 0), Mov64I(2, 0), Mov64I(3, 0), Mov64I(4, 0), Mov64I(5, 0), CallI(2) >>
+               [] wk = 2 -> << LdAbsI(1, 1) >>
+               [] wk = 3 -> << Mov64I(4, 1), LdIndI(1, 4, 1) >>
+               [] wk = 4 -> << LdxI(1, 0, 1, 3) >>
+               [] wk = 5 -> LddwSlots(0, V64[3])
+               [] wk = 6 -> << CallxI(3) >>
+      tail == IF wk = 6 THEN << Mov64I(0, 4), ExitI >> ELSE <<>>     \* the local function: returns 4
+  IN [WithPkt([BaseCase EXCEPT !.vm = "raw"], 16) EXCEPT !.id = <<"uaw", wk, o, 0, 0, 0, 0>>, !.fam = "flow", !.helpers = {2},
+        !.prog = Flat(pre \o w \o use \o tail)]
+
+FlowCases(u) ==
+  { FlowDead(k) : k \in {1, 2} } \cup
+  { FlowJoin(oi, t) : oi \in 1..Len(JoinOps), t \in {0, 1} } \cup
+  { FlowAlias(k, w) : k \in {1, 2}, w \in Widths } \cup
+  { FlowUaw(t[1], t[2]) : t \in { x \in UawWriters \X UawOps : Keep(x[1] + 3 * x[2]) \/ Op(x[2]) \in {DIV, MOD} } }
+
+(***************************************************************************)
 (* Family "helpers" (C08): helper calls with boundary ids and arguments,   *)
 (* at call depth 0..3 and 7, 8 (the deepest allowed), one to three calls    *)
 (* per program, with exact, larger                                         *)
